@@ -6,12 +6,12 @@ Line protocol for K_C18 (one input line → one output line).
   `search net|room|user`      `wlmsg <n>`      `wlclose`      `remove <tk>`      `reply <tk>`
   `tcancel <tk>`              `tresched <tk> <n>`             `jump <d>`         `sleep <d>`
   `stop`                      `resume <tk>`       `tick [<n>]`    `gate 0|1`
-  `sendok <tk>`               `sendfail <tk>`     `ccancel <tk>`
-      → `<events> | live=<tickets> armed=<tickets> res=<tk:n,…> pend=<k> [rep=<tk:told,…>] setup=<tickets> now=<t>`
+  `sendok <tk>`               `sendfail <tk>`     `ccancel <tk>`          `sessdown`      `sessup`
+      → `<events> | live=<tickets> armed=<tickets> res=<tk:n,…> pend=<k> [rep=<tk:told,…>] setup=<tickets> sess=<0|1> now=<t>`
   events (sorted): `<t>:S:<tk>` sent, `<t>:X:<tk>` removed, `<t>:R:<tk>` result, `<t>:E:<tk>` KeyError in a timer
   task, `<t>:T<i>:<tk>` removal listener `i` called, `<t>:A<i>:<tk>` report aborted after `i` listeners,
   `KeyError` raised to the caller, `noreq` / `notimer` / `noemit` / `nosetup`, `clobber`.
-`setup` lists the tickets of the set-ups whose send is still blocked.
+`setup` lists the tickets of the set-ups whose send is still blocked; `sess` is `_session is not None`.
 `sleep d` is executed as `Search.sleepOps d`, `stop` as `Search.stopOps`, with the same `step` / `nstep` the theorems
 are about; `resume tk` = `NOp.resume` of the report for that ticket, then the loop runs (`settle`).
 `pend` counts the timer tasks that have not finished: the pending ones and those still reporting a removal.
@@ -71,7 +71,7 @@ def summary (ns : NState) (obs : List NObs) : String :=
     " rep=" ++ ",".intercalate ((sortBy (fun (a b : Emission) => decide (a.ticket ≤ b.ticket)) ns.reporting).map
       (fun e => s!"{e.ticket}:{e.told}"))
   let setup := natsStr ((s.pending.filter (·.outcome.isNone)).map (·.ticket))
-  s!"{" ".intercalate toks} | live={live} armed={armed} res={res} pend={s.tasks.length + ns.reporting.length}{rep} setup={setup} now={s.now}"
+  s!"{" ".intercalate toks} | live={live} armed={armed} res={res} pend={s.tasks.length + ns.reporting.length}{rep} setup={setup} sess={if s.session then 1 else 0} now={s.now}"
 
 def parseInt (x : String) : Option Int :=
   if x.startsWith "-" then (x.drop 1).toNat?.map (fun n => - (n : Int)) else x.toNat?.map (fun n => (n : Int))
@@ -101,6 +101,8 @@ def ops (s : NState) (line : String) : Option (List NOp) :=
   | ["sendok", t] => t.toNat?.map fun t => [.base (.sendDone t true)]
   | ["sendfail", t] => t.toNat?.map fun t => [.base (.sendDone t false)]
   | ["ccancel", t] => t.toNat?.map fun t => [.base (.cancelCall t)]
+  | ["sessdown"] => some [.base .sessionDestroyed]
+  | ["sessup"] => some [.base .sessionInitialized]
   | ["resume", t] => t.toNat?.map fun t =>
     -- the report for the request announced with ticket `t`; an unknown one resumes nothing (`noemit`)
     [.resume (((s.reporting.find? (·.ticket = t)).map (·.rid)).getD 0), .base .settle]
